@@ -59,8 +59,8 @@ def keccakF (st0 : Array UInt64) : Array UInt64 := Id.run do
   let sh : UInt64 := (UInt64.ofNat (pos % 8)) * 8
   (st[lane]! >>> sh).toUInt8
 
-/-- SHAKE with the given rate (168 for SHAKE128, 136 for SHAKE256): first `n` output bytes -/
-def shake (rate : Nat) (input : ByteArray) (n : Nat) : ByteArray := Id.run do
+/-- absorb the input, pad (SHAKE domain bits `1111` then `pad10*1`) and permute: the state from which output is squeezed -/
+def absorb (rate : Nat) (input : ByteArray) : Array UInt64 := Id.run do
   let mut st : Array UInt64 := Array.replicate 25 0
   let mut pos := 0
   for b in input do
@@ -72,15 +72,21 @@ def shake (rate : Nat) (input : ByteArray) (n : Nat) : ByteArray := Id.run do
   st := xorByte st pos 0x1F
   st := xorByte st (rate - 1) 0x80
   st := keccakF st
-  let mut out := ByteArray.emptyWithCapacity n
-  let mut opos := 0
-  for _ in [0:n] do
+  return st
+
+/-- squeeze `n` bytes from state `st`, `opos` bytes of the current block already used (structural recursion on `n`, so that
+    "fewer bytes = a prefix" is a two-line induction: `Lemmas/OracleReal`) -/
+def squeezeL (rate : Nat) : Nat → Array UInt64 → Nat → List UInt8
+  | 0, _, _ => []
+  | n + 1, st, opos =>
     if opos == rate then
-      st := keccakF st
-      opos := 0
-    out := out.push (getByte st opos)
-    opos := opos + 1
-  return out
+      let st' := keccakF st
+      getByte st' 0 :: squeezeL rate n st' 1
+    else getByte st opos :: squeezeL rate n st (opos + 1)
+
+/-- SHAKE with the given rate (168 for SHAKE128, 136 for SHAKE256): first `n` output bytes -/
+def shake (rate : Nat) (input : ByteArray) (n : Nat) : ByteArray :=
+  ByteArray.mk (squeezeL rate n (absorb rate input) 0).toArray
 
 def toBA (l : List Nat) : ByteArray := ByteArray.mk (l.toArray.map (fun x => x.toUInt8))
 def ofBA (b : ByteArray) : List Nat := b.data.toList.map (fun x => x.toNat)
